@@ -136,7 +136,7 @@ func DecodeSenc(hdr BoxHeader, startPos uint64, r io.Reader) (Box, error) {
 		StartPos:         startPos,
 		SampleCount:      sampleCount,
 		readButNotParsed: true,
-		readBoxSize:      hdr.Size,
+		readBoxSize:      hdr.Size - uint64(hdr.Hdrlen) + boxHeaderSize, // the box is written with a compact header
 	}
 
 	if flags&UseSubSampleEncryption != 0 && (len(senc.rawData) < 2*int(sampleCount)) {
@@ -177,7 +177,7 @@ func DecodeSencSR(hdr BoxHeader, startPos uint64, sr bits.SliceReader) (Box, err
 		StartPos:         startPos,
 		SampleCount:      sampleCount,
 		readButNotParsed: true,
-		readBoxSize:      hdr.Size,
+		readBoxSize:      hdr.Size - uint64(hdr.Hdrlen) + boxHeaderSize, // the box is written with a compact header
 	}
 
 	if senc.SampleCount == 0 || len(senc.rawData) == 0 {
